@@ -372,7 +372,7 @@ def check_accounting(ctx, ex):
     ctx.check("C12.A", "_get_virtual_address_from_epr_data:kth-entry-of-request-qubit-array", ok, f"the virtual qubit of pair k is read from `{src(ae) if ae is not None else None}`", repo.loc(m, gv))
 
 
-def check_busy(ctx, ex):
+def check_busy(ctx, ex, rule="C12.B"):
     repo = ctx.repo
     m = ex.module
     fn = ex.methods.get("_handle_epr_ok_k_response")
@@ -382,7 +382,7 @@ def check_busy(ctx, ex):
     ctx.fn("Executor._handle_epr_ok_k_response")
     alloc = [c for c in A.calls_in(fn) if A.is_self_attr(c.func, "_allocate_physical_qubit")]
     if len(alloc) != 1:
-        ctx.error("C12.B", "expected one allocation in _handle_epr_ok_k_response")
+        ctx.error(rule, "expected one allocation in _handle_epr_ok_k_response")
         return
     va = A.kwargs_of(alloc[0]).get("virtual_address")
     guarded = False
@@ -392,20 +392,20 @@ def check_busy(ctx, ex):
             if isinstance(t, ast.Call) and A.is_self_attr(t.func, "_has_virtual_address"):
                 kw = A.kwargs_of(t)
                 guarded = va is not None and A.norm(kw.get("virtual_address", ast.Constant(value=0))) == A.norm(va) and A.norm(kw.get("app_id", ast.Constant(value=0))) == "app_id"
-    ctx.check("C12.B", "_handle_epr_ok_k_response:defer-when-virtual-qubit-busy", guarded,
+    ctx.check(rule, "_handle_epr_ok_k_response:defer-when-virtual-qubit-busy", guarded,
               "the keep-response allocates without first returning False when _has_virtual_address(app_id, <same virtual address>) holds: a still-allocated virtual qubit would be overwritten (or the response lost)", repo.loc(m, alloc[0]))
     rets = A.returns(hv)
     last = rets[-1].value if rets else None
     ok = last is not None and A.norm(last).endswith("isnotNone") and "unit_module[virtual_address]" in A.norm(last)
-    ctx.check("C12.B", "_has_virtual_address:slot-occupied-test", ok, f"_has_virtual_address ends with `{src(last) if last is not None else None}`; expected unit_module[virtual_address] is not None", repo.loc(m, hv))
+    ctx.check(rule, "_has_virtual_address:slot-occupied-test", ok, f"_has_virtual_address ends with `{src(last) if last is not None else None}`; expected unit_module[virtual_address] is not None", repo.loc(m, hv))
     # virtual address of the pair
     d = A.single_defs(fn)
     ok = "virtual_address" in d and A.norm(d["virtual_address"]) == "self._get_virtual_address_from_epr_data(epr_cmd_data,pair_index,app_id)"
-    ctx.check("C12.B", "_handle_epr_ok_k_response:virtual-address-of-pair", ok, "the virtual address is not the request's entry for this pair index", repo.loc(m, fn), trivial=True)
+    ctx.check(rule, "_handle_epr_ok_k_response:virtual-address-of-pair", ok, "the virtual address is not the request's entry for this pair index", repo.loc(m, fn), trivial=True)
     # handled result is the value returned by the handler; unhandled responses stay queued
     hp = ex.methods["_handle_pending_epr_responses"]
     ok = any(isinstance(n, ast.Assign) and A.norm(n.targets[0]) == "handled" and isinstance(n.value, ast.Call) and "_epr_response_handlers[response.type]" in A.norm(n.value.func) for n in ast.walk(hp))
-    ctx.check("C12.B", "_handle_pending_epr_responses:handled-is-handler-result", ok, "`handled` is not the boolean returned by the type-specific response handler", repo.loc(m, hp))
+    ctx.check(rule, "_handle_pending_epr_responses:handled-is-handler-result", ok, "`handled` is not the boolean returned by the type-specific response handler", repo.loc(m, hp))
 
 
 def check_waits(ctx, ex):
